@@ -49,7 +49,7 @@ int Normaliser::polyAtom(const char *kind, const Poly &p, int rep, int bytes) {
   int t = TT.mk(std::string(kind) == "invpoly" ? "inv" : std::string(kind) == "abspoly" ? "abs" : "sqrt", {rep}, 0, bytes);
   polyAtoms[key] = t; return t;
 }
-Poly Normaliser::atom(int t) { atoms++; if (C) { int ct = C->canon(t); if (ct != t) { const Term &y = TT.t[ct]; if (y.op == TT.OP_C) { Poly p; if (y.k) p[Mono()] = Q((long long)y.k); return p; } t = ct; } } Poly p; p[Mono{{t, 1}}] = Q(1); return p; }
+Poly Normaliser::atom(int t) { atoms++; if (C) { int ct = C->canon(t); if (ct != t) { const Term &y = TT.t[ct]; if (y.op == TT.OP_C) { Poly p; if (y.k) p[Mono()] = Q((long long)y.k); return p; } if (y.op == TT.OP_ADD || y.op == TT.OP_SUB || y.op == TT.OP_MUL) return norm(ct, false); /* the canonical form became an integer ring expression: expand it */ t = ct; } } Poly p; p[Mono{{t, 1}}] = Q(1); return p; }
 
 static bool isSignMask(const Term &c, int bytes) { return c.op == TT.OP_C && ((bytes == 4 && (int32_t)c.k == INT32_MIN) || (bytes == 8 && c.k == INT64_MIN)); }
 static bool dyadic(double d, Q &out) {
@@ -228,6 +228,13 @@ int Canon::canon(int t) {
   else if (x.op == TT.OP_SUB && TT.t[x.a[0]].op == TT.OP_XOR && TT.t[x.a[1]].op == TT.OP_ASHR && TT.t[TT.t[x.a[1]].a[1]].op == TT.OP_C && TT.t[TT.t[x.a[1]].a[1]].k == x.bytes * 8 - 1 &&
            ((TT.t[x.a[0]].a[0] == x.a[1] && TT.t[x.a[0]].a[1] == TT.t[x.a[1]].a[0]) || (TT.t[x.a[0]].a[1] == x.a[1] && TT.t[x.a[0]].a[0] == TT.t[x.a[1]].a[0])))
     r = TT.mk("abs", {TT.t[x.a[1]].a[0]}, 0, x.bytes);   // (x ^ (x >> 31)) - (x >> 31) == |x|
+  else if (x.op == TT.OP_XOR && x.a.size() == 2 && x.bytes >= 2 &&
+           ((TT.t[x.a[1]].op == TT.OP_ASHR && TT.t[x.a[1]].a[0] == x.a[0] && TT.t[TT.t[x.a[1]].a[1]].op == TT.OP_C && TT.t[TT.t[x.a[1]].a[1]].k == x.bytes * 8 - 1) ||
+            (TT.t[x.a[0]].op == TT.OP_ASHR && TT.t[x.a[0]].a[0] == x.a[1] && TT.t[TT.t[x.a[0]].a[1]].op == TT.OP_C && TT.t[TT.t[x.a[0]].a[1]].k == x.bytes * 8 - 1))) {
+    // x ^ (x >> bits-1) == |x| + (x >> bits-1)   (the sign smear s is 0 or -1: x^0 = x, x^-1 = -x-1); lets the polynomial form cancel the smear
+    int sm = TT.t[x.a[1]].op == TT.OP_ASHR && TT.t[x.a[1]].a[0] == x.a[0] ? x.a[1] : x.a[0]; int v = sm == x.a[1] ? x.a[0] : x.a[1];
+    r = mk(TT.OP_ADD, {TT.mk("abs", {v}, 0, x.bytes), sm}, 0, x.bytes);
+  }
   else if (x.op == TT.OP_MUL && ((TT.t[x.a[0]].op == TT.OP_C && TT.t[x.a[0]].k == 0) || (TT.t[x.a[1]].op == TT.OP_C && TT.t[x.a[1]].k == 0))) r = TT.cint(0, x.bytes);
   else if (op == "abs" && TT.t[x.a[0]].op == TT.OP_C) r = TT.cint(TT.t[x.a[0]].k < 0 ? -TT.t[x.a[0]].k : TT.t[x.a[0]].k, x.bytes);
   else if (x.op == TT.OP_MUL && x.bytes == 8 && x.a.size() == 2 && ((TT.t[x.a[0]].op == TT.OP_C && TT.t[x.a[0]].k == 4294967297LL && TT.t[x.a[1]].op == TT.OP_ZEXT && TT.t[x.a[1]].k == 32) || (TT.t[x.a[1]].op == TT.OP_C && TT.t[x.a[1]].k == 4294967297LL && TT.t[x.a[0]].op == TT.OP_ZEXT && TT.t[x.a[0]].k == 32))) {
@@ -270,6 +277,14 @@ int Canon::canon(int t) {
     int base = -1, next = 0; bool ok = true;
     for (int a : x.a) { const Term &p = TT.t[a]; if (p.op != TT.OP_PIECE) { ok = false; break; } if (base < 0) base = p.a[0]; if (p.a[0] != base || p.k != next) { ok = false; break; } next += p.bytes; }
     if (ok && base >= 0 && TT.t[base].bytes == x.bytes && next == x.bytes) r = base;
+    if (r < 0 && x.bytes <= 8 && x.a.size() >= 2) { // concat(s,s,..) with s = ashr(top piece of y, all bits): the sign of y smeared over its whole width == ashr(y, bits-1)
+      bool same = true; for (int a : x.a) if (a != x.a[0]) same = false;
+      const Term s0 = TT.t[x.a[0]];
+      if (same && s0.op == TT.OP_ASHR && TT.t[s0.a[1]].op == TT.OP_C && TT.t[s0.a[1]].k == s0.bytes * 8 - 1 && TT.t[s0.a[0]].op == TT.OP_PIECE) {
+        const Term pc = TT.t[s0.a[0]]; int y = pc.a[0];
+        if (TT.t[y].bytes == x.bytes && pc.k + pc.bytes == x.bytes) r = canon(TT.mk(TT.OP_ASHR, {y, TT.cint(x.bytes * 8 - 1, x.bytes)}, 0, x.bytes));
+      }
+    }
   }
   else if (op.compare(0, 5, "fcmp.") == 0 || op.compare(0, 5, "icmp.") == 0) {
     // one canonical atom per comparison up to complement: {oeq, olt, ole, ord} / {ne, slt, ult} and NOT
@@ -343,6 +358,7 @@ uint64_t symBits(int nsi, int64_t cell, int point) {
   const SymNS &ns = TT.ns[nsi];
   uint64_t h = mix(mix(std::hash<std::string>()(ns.name)) ^ mix((uint64_t)cell * 1315423911u + (uint64_t)point * 2654435761u));
   if (ns.isbool) return h & 1;
+  if (ns.fp && point >= 8) return symBits(nsi, cell, point - 8);
   if (point == 6 || point == 7) { // every symbol far below / far above any constant seed
     double v = (point == 6 ? -1000.0 : 1000.0) - (double)(h % 13); if (ns.positive) v = std::fabs(v); if (ns.fp) return fpToBits(v, ns.esz); return (uint64_t)(int64_t)v & maskB(ns.esz); }
   if (ns.fp) {
@@ -356,6 +372,15 @@ uint64_t symBits(int nsi, int64_t cell, int point) {
     return fpToBits(v, ns.esz);
   }
   int bits = ns.esz * 8; uint64_t v;
+  if (point >= 8) { // wide integer points (used only for integer comparisons; a point at which any signed operation overflows is discarded by the caller)
+    static const int64_t w8[] = {2147483648LL, -2147483649LL, 2147483647LL, -2147483648LL, 4294967301LL, -4294967299LL, 1099511627777LL, -1099511627779LL, 4611686018427387904LL, -4611686018427387905LL, 65536LL, -65537LL, 3, -5};
+    static const int64_t w4[] = {32768, -32769, 65539, -65541, 1073741824, -1073741825, 2147483647LL, -2147483648LL, 255, -257, 3, -5};
+    static const int64_t w2[] = {128, -129, 255, -256, 16384, -16385, 32767, -32768, 3, -5};
+    static const int64_t w1[] = {0, 1, -1, 127, -128, 64, -65, 2, 3, -5};
+    int64_t sv = ns.esz >= 8 ? w8[h % 14] : ns.esz == 4 ? w4[h % 12] : ns.esz == 2 ? w2[h % 10] : w1[h % 10];
+    if (ns.positive && sv <= 0) sv = sv == INT64_MIN ? 1 : 1 - sv;
+    return (uint64_t)sv & maskB(ns.esz);
+  }
   // signed overflow is undefined in the reference programs, so integer points stay small: a refutation must be a
   // defined execution of the scalar code (large-value discrepancies are left to the structural comparison)
   switch (point) {
@@ -387,6 +412,7 @@ static bool libm2(const std::string &f, long double x, long double y, long doubl
 }
 static std::string libmBase(const std::string &op) { std::string f = op.substr(5); if (f.size() > 1 && f.back() == 'f' && f != "erf") { std::string g = f.substr(0, f.size() - 1); long double t; if (libm1(g, 0.5L, t) || libm2(g, 0.5L, 0.5L, t)) return g; } return f; }
 
+bool g_evalOverflow = false; // a signed add/sub/mul/abs overflowed at the operation's width while evaluating: the point is not a defined execution of the scalar reference
 bool evalBits(int t, int point, std::unordered_map<int, uint64_t> &memo, uint64_t &out) {
   auto it = memo.find(t);
   if (it != memo.end()) { out = it->second; return true; }
@@ -414,9 +440,10 @@ bool evalBits(int t, int point, std::unordered_map<int, uint64_t> &memo, uint64_
   else if (op == "bit") r = (v[0] >> x.k) & 1;
   else if (op == "bits") { for (size_t i = 0; i < v.size(); i++) r |= (v[i] & 1) << i; }
   else if (op == "signbit") r = (v[0] >> (argBytes(0) * 8 - 1)) & 1;
-  else if (x.op == TT.OP_ADD) r = v[0] + v[1];
-  else if (x.op == TT.OP_SUB) r = v[0] - v[1];
-  else if (x.op == TT.OP_MUL) r = v[0] * v[1];
+  else if (x.op == TT.OP_ADD || x.op == TT.OP_SUB || x.op == TT.OP_MUL) {
+    r = x.op == TT.OP_ADD ? v[0] + v[1] : x.op == TT.OP_SUB ? v[0] - v[1] : v[0] * v[1];
+    if (by <= 8) { __int128 a = sextB(v[0] & m, bits), b = sextB(v[1] & m, bits); __int128 e = x.op == TT.OP_ADD ? a + b : x.op == TT.OP_SUB ? a - b : a * b; if (e != (__int128)sextB(r & m, bits)) g_evalOverflow = true; }
+  }
   else if (x.op == TT.OP_AND) r = v[0] & v[1];
   else if (x.op == TT.OP_OR) r = v[0] | v[1];
   else if (x.op == TT.OP_XOR) r = v[0] ^ v[1];
@@ -455,7 +482,7 @@ bool evalBits(int t, int point, std::unordered_map<int, uint64_t> &memo, uint64_
   else if (op == "fpext") r = fpToBits(fa(0), by);
   else if (op == "fptrunc") r = fpToBits((float)fa(0), 4);
   else if (op == "smin" || op == "smax" || op == "umin" || op == "umax") { uint64_t a = v[0] & m, b = v[1] & m; int64_t sa = sextB(a, bits), sb = sextB(b, bits); r = op == "smin" ? (sa <= sb ? a : b) : op == "smax" ? (sa >= sb ? a : b) : op == "umin" ? (a <= b ? a : b) : (a >= b ? a : b); }
-  else if (op == "abs") { int64_t a = sextB(v[0] & m, bits); r = (uint64_t)(a < 0 ? -a : a); }
+  else if (op == "abs") { int64_t a = sextB(v[0] & m, bits); r = a < 0 ? (uint64_t)0 - (uint64_t)a : (uint64_t)a; if (sextB(r & m, bits) < 0) g_evalOverflow = true; }
   else if (op == "x86min") { double a = fa(0), b = fa(1); r = (a < b) ? v[0] : v[1]; }
   else if (op == "x86max") { double a = fa(0), b = fa(1); r = (a > b) ? v[0] : v[1]; }
   else if (op == "minnum") r = fpToBits(fmin(fa(0), fa(1)), by);
@@ -534,11 +561,14 @@ std::set<int> Comparer::symsOf(int t) {
 }
 bool Comparer::refute(int a, int b, bool fp, int bytes, bool exactBits, std::string &point, std::string &va, std::string &vb, bool &evaluable) {
   evaluable = false; bool wide = points > 6;
-  for (int p = 0; p < points; p++) {
-    if (p >= 6 && !wide) break;
+  std::vector<int> pts; for (int p = 0; p < points; p++) { if (p >= 6 && !wide) break; pts.push_back(p); }
+  if (!fp) for (int p = 8; p < 14; p++) pts.push_back(p); // integers: wide values, kept only where no signed operation overflows
+  for (int p : pts) {
     if (exactBits || !fp) {
       std::unordered_map<int, uint64_t> m; uint64_t x, y;
+      g_evalOverflow = false;
       if (!evalBits(a, p, m, x) || !evalBits(b, p, m, y)) continue;
+      if (g_evalOverflow && p >= 8) continue;
       evaluable = true;
       if (x == y) continue;
       if (fp) { double dx = bitsToFp(x, bytes), dy = bitsToFp(y, bytes); if (std::isnan(dx) || std::isnan(dy)) continue; }
